@@ -462,7 +462,10 @@ def gen_model(rng, weights, big=False):
         vars_ = [list(rng.choice(DOMAINS)) for _ in range(nv)]
         if any(k in chosen for k in ("noov", "cum")) and rng.random() < 0.7:
             vars_ = [[0, rng.choice([2, 3, 4, 5 if big else 4])] for _ in range(nv)]
-    plant = [rng.randint(lb, ub) for lb, ub in vars_]
+    if rng.random() < 0.025:  # an empty domain (lb > ub): the model has no solution
+        i = rng.randrange(len(vars_))
+        vars_[i] = [vars_[i][1] + rng.choice([1, 2]), vars_[i][1]]
+    plant = [rng.randint(lb, ub) if lb <= ub else lb for lb, ub in vars_]
     cons = []
     for k in chosen:
         if k == "rel":
@@ -501,7 +504,7 @@ def gen_hints(rng, vars_, plant):
             if q < 0.5:
                 h[f"x{i}"] = plant[i]
             elif q < 0.8:
-                h[f"x{i}"] = rng.randint(lb, ub)
+                h[f"x{i}"] = rng.randint(lb, ub) if lb <= ub else lb
             else:
                 h[f"x{i}"] = rng.choice([lb - 1, ub + 1, ub + 5])
     if rng.random() < 0.15:
